@@ -39,6 +39,12 @@ theorem explicit_values_kept (r : Request) (h : (r.kws.map Param.kw).Nodup) (p :
     (merged r).get p.kw = .ok p.val := by
   simp [PSet.get, lookup_merged, lastVal_of_mem_nodup r.kws h p hp]
 
+/-- non-vacuity: an explicit `num_neighbors = 7` survives the merge, an unset `target_dimension` shows its default 2 -/
+example : (merged ⟨10, [⟨.method, .method .Isomap⟩, ⟨.num_neighbors, .int 7⟩], false, true, false, false, 10⟩).get .num_neighbors
+    = .ok (.int 7) ∧
+    (merged ⟨10, [⟨.method, .method .Isomap⟩, ⟨.num_neighbors, .int 7⟩], false, true, false, false, 10⟩).get .target_dimension
+    = .ok (.int 2) := ⟨rfl, rfl⟩
+
 /-- the value held by every keyword of `tapkee_internal::defaults` equals the keyword's default value -/
 theorem defaults_hold_default : ∀ k ∈ defaultsList, lookup k defaults.pmap = some k.default := defaults_lookup
 
@@ -210,6 +216,14 @@ structure Typed (r : Request) : Prop where
   nodup : (r.kws.map Param.kw).Nodup
   method : ∃ m, (⟨.method, .method m⟩ : Param) ∈ r.kws
   typed : WellTyped r
+
+/-- non-vacuity: a concrete request meeting `Typed`, and the precedence theorems at work on it (N = 0 with a bad
+    `target_dimension`, a firing cancel function and no callbacks at all is answered by `no_data_error`) -/
+example : Typed ⟨0, [⟨.target_dimension, .int 0⟩, ⟨.method, .method .Isomap⟩, ⟨.cancel_function, .cancelFn (some true)⟩],
+    false, false, false, false, 10⟩ :=
+  ⟨by decide, ⟨.Isomap, by simp⟩, by intro p hp; simp at hp; rcases hp with rfl | rfl | rfl <;> rfl⟩
+example : frontEnd ⟨0, [⟨.target_dimension, .int 0⟩, ⟨.method, .method .Isomap⟩, ⟨.cancel_function, .cancelFn (some true)⟩],
+    false, false, false, false, 10⟩ = ⟨.threw (errT .no_data_error), Counts.zero⟩ := by decide +kernel
 
 theorem Typed.merged_typed {r : Request} (h : Typed r) (k : Kw) :
     ∃ v, lookup k (merged r).pmap = some v ∧ v.ty = k.ty := by
